@@ -229,6 +229,16 @@ func itoa(i int) string {
 // ---------------------------------------------------------------- channels (sequential semantics; thread mode overrides in threads.go)
 
 func (e *Engine) chanSend(st *State, th *Thread, c ChanV, v Val, pos token.Pos) {
+	if e.threadMode {
+		e.offer(st, th)
+		w := waitCh{c.Obj, true}
+		if !e.chanReady(st, w) {
+			th.waitMode, th.waitChans = 4, []waitCh{w}
+			e.threadBlock(st, th, "chan send")
+		}
+		th.atSwitch = false
+		e.chanSync(st, th, c.Obj, true)
+	}
 	if c.Obj == 0 {
 		e.blocked(st, th, "send on nil channel", pos)
 		return
@@ -258,6 +268,19 @@ func (e *Engine) chanRecv(st *State, th *Thread, c ChanV, commaOk bool, t types.
 	if commaOk {
 		et = t.(*types.Tuple).At(0).Type()
 	}
+	if e.threadMode {
+		e.offer(st, th)
+		w := waitCh{c.Obj, false}
+		if !e.chanReady(st, w) {
+			th.waitMode, th.waitChans = 4, []waitCh{w}
+			e.threadBlock(st, th, "chan receive")
+		}
+		th.atSwitch = false
+		e.chanSync(st, th, c.Obj, false)
+		if o := st.obj(c.Obj); o.timer && len(o.q) == 0 && !o.closed {
+			e.tm(st).ticks--
+		}
+	}
 	if c.Obj == 0 {
 		e.blocked(st, th, "receive from nil channel", pos)
 		return nil
@@ -284,6 +307,9 @@ func (e *Engine) chanRecv(st *State, th *Thread, c ChanV, commaOk bool, t types.
 }
 
 func (e *Engine) chanClose(st *State, c ChanV) {
+	if e.threadMode {
+		e.chanSync(st, st.threads[st.cur], c.Obj, true)
+	}
 	m := st.mut(c.Obj)
 	m.closed = true
 }
@@ -302,18 +328,23 @@ func (e *Engine) selectStmt(st *State, th *Thread, fr *Frame, x *ssa.Select) Val
 		ready bool
 	}
 	var ready []int
+	if e.threadMode {
+		e.offer(st, th)
+	}
+	var waits []waitCh
 	for i, s := range x.States {
 		c := e.get(st, fr, s.Chan).(ChanV)
 		if c.Obj == 0 {
 			continue
 		}
 		o := st.obj(c.Obj)
+		waits = append(waits, waitCh{c.Obj, s.Dir == types.SendOnly})
 		if s.Dir == types.SendOnly {
 			if len(o.q) < o.qcap && !o.closed {
 				ready = append(ready, i)
 			}
 		} else {
-			if len(o.q) > 0 || o.closed || o.timer {
+			if len(o.q) > 0 || o.closed || (o.timer && (!e.threadMode || e.tm(st).ticks > 0)) {
 				ready = append(ready, i)
 			}
 		}
@@ -330,6 +361,7 @@ func (e *Engine) selectStmt(st *State, th *Thread, fr *Frame, x *ssa.Select) Val
 			return res
 		}
 		if e.threadMode {
+			th.waitMode, th.waitChans = 4, waits
 			e.threadBlock(st, th, "select")
 			return nil
 		}
@@ -339,6 +371,13 @@ func (e *Engine) selectStmt(st *State, th *Thread, fr *Frame, x *ssa.Select) Val
 	k := ready[e.choose(st, len(ready), "select")]
 	s := x.States[k]
 	c := e.get(st, fr, s.Chan).(ChanV)
+	if e.threadMode {
+		th.atSwitch = false
+		e.chanSync(st, th, c.Obj, s.Dir == types.SendOnly)
+		if o := st.obj(c.Obj); s.Dir != types.SendOnly && o.timer && len(o.q) == 0 && !o.closed {
+			e.tm(st).ticks--
+		}
+	}
 	res[0] = IntV{tb.BV(uint64(k), 64)}
 	if s.Dir == types.SendOnly {
 		o := st.obj(c.Obj)
